@@ -1929,3 +1929,37 @@ pub mod pairfx {
         }
     }
 }
+
+// ---------------------------------------------------------------- R-PARTIALWRITE
+pub mod partialfx {
+    use std::io::{self, Write};
+    pub struct Buf { pub data: Vec<u8>, pub pos: usize }
+    impl Buf {
+        fn drain_to<W: Write>(&mut self, w: &mut W) -> io::Result<usize> {
+            let n = w.write(&self.data[self.pos..])?;
+            self.pos += n;
+            Ok(n)
+        }
+        pub fn ok_flush<W: Write>(&mut self, w: &mut W) -> io::Result<()> {
+            while self.pos < self.data.len() {
+                if self.drain_to(w)? == 0 {
+                    return Err(io::Error::new(io::ErrorKind::WriteZero, "zero"));
+                }
+            }
+            self.data.clear();
+            self.pos = 0;
+            Ok(())
+        }
+        pub fn bad_flush<W: Write>(&mut self, w: &mut W) -> io::Result<()> {
+            if self.pos == self.data.len() {
+                return Ok(());
+            }
+            if self.drain_to(w)? == 0 {
+                return Err(io::Error::new(io::ErrorKind::WriteZero, "zero"));
+            }
+            self.data.clear();
+            self.pos = 0;
+            Ok(())
+        }
+    }
+}
